@@ -373,6 +373,8 @@ fn same_class(prop: &str, v: &Verdict, class: &str) -> bool {
 
 /// delta debugging over the op list + world-specific simplifications
 pub fn minimise(prop: &str, trace: &Trace, class: &str, in_process: bool, budget: usize) -> Trace {
+    // SIMCHECK_NO_MINIMISE=1: report unminimised traces (used by bulk evaluations of seeded changes)
+    let budget = if std::env::var("SIMCHECK_NO_MINIMISE").is_ok() { 0 } else { budget };
     let mut best = trace.clone();
     let mut spent = 0usize;
     let mut test = |t: &Trace, spent: &mut usize| -> bool {
